@@ -99,6 +99,36 @@ impl Default for EnvCfg {
     }
 }
 
+/// "unlimited" value that still switches the accounting on
+pub const BIG: usize = usize::MAX / 4;
+
+#[derive(Clone, Debug, Serialize, Deserialize, PartialEq, Default)]
+pub struct Limits {
+    pub size: Option<usize>,
+    pub depth: Option<usize>,
+    pub recursion: Option<usize>,
+    pub ud_call: Option<usize>,
+    pub search: Option<usize>,
+    pub time_ns: Option<u64>,
+}
+
+impl Limits {
+    /// accounting switched on, nothing can trip
+    pub fn calibration() -> Self {
+        Limits { size: Some(BIG), depth: None, recursion: None, ud_call: Some(BIG), search: None, time_ns: None }
+    }
+}
+
+pub const PERM_NAMES: [&str; 6] = ["now", "print", "print_debug", "random", "regex", "sleep"];
+
+/// per permission: None = left unset (documented default applies)
+pub type Perms = [Option<bool>; 6];
+
+pub fn perm_default(i: usize) -> bool {
+    i < 4
+}
+
+
 // ---------------------------------------------------------------- event log
 
 #[derive(Clone, Debug, PartialEq)]
@@ -108,6 +138,7 @@ pub enum Ev {
     Pre { req: usize, total: usize, ok: bool, site: u32 },
     Call { count: usize, ok: bool },
     Enter,
+    Frame(usize),
     Tail(usize),
     DepthTrip(usize),
     RecTrip(usize),
@@ -132,9 +163,13 @@ pub struct Counters {
     pub call_counts: u64,
     pub call_refused: u64,
     pub call_enters: u64,
+    pub frames: u64,
+    pub root_frames: u64,
     pub tail_iters: u64,
     pub depth_trips: u64,
     pub rec_trips: u64,
+    pub depth_due: u64,
+    pub rec_due: u64,
     pub timeout_checks: u64,
     pub timeouts_due: u64,
     pub perm_checks: u64,
@@ -162,8 +197,10 @@ pub struct World {
     pub log: Vec<Ev>,
     pub c: Counters,
 
+    pub limits: Limits,
+    pub perms: Perms,
+
     // ---- allocation model
-    pub size_limit: Option<usize>,
     pub model_total: usize,
     pub model_peak: usize,
     pub outstanding: BTreeMap<usize, u32>,
@@ -172,6 +209,8 @@ pub struct World {
     pub calls_since_reset: usize,
     pub enters_since_reset: usize,
     pub refused_since_reset: usize,
+    pub max_height: usize,
+    pub op_max_height: usize,
 
     // ---- fired violations (in order, capped)
     pub fired: Vec<String>,
@@ -181,7 +220,6 @@ pub struct World {
     // ---- clock
     pub mono_ns: u64,
     pub in_deadline_set: bool,
-    pub time_limit_ns: Option<u64>,
     pub timer_start_ns: u64,
     pub late_enters: u64,
     pub slept_ns: u64,
@@ -209,19 +247,21 @@ impl World {
             hash: 0xcbf2_9ce4_8422_2325,
             log: vec![],
             c: Counters::default(),
-            size_limit: None,
+            limits: Limits::default(),
+            perms: [None; 6],
             model_total: 0,
             model_peak: 0,
             outstanding: BTreeMap::new(),
             calls_since_reset: 0,
             enters_since_reset: 0,
             refused_since_reset: 0,
+            max_height: 0,
+            op_max_height: 0,
             fired: vec![],
             fired_sites: vec![],
             all_fired_sites: Default::default(),
             mono_ns: 0,
             in_deadline_set: false,
-            time_limit_ns: None,
             timer_start_ns: 0,
             late_enters: 0,
             slept_ns: 0,
@@ -282,6 +322,10 @@ impl World {
                 h = fnv(h, &count.to_le_bytes());
             }
             Ev::Enter => h = fnv(h, &[5]),
+            Ev::Frame(n) => {
+                h = fnv(h, &[18]);
+                h = fnv(h, &n.to_le_bytes());
+            }
             Ev::Tail(n) => {
                 h = fnv(h, &[6]);
                 h = fnv(h, &n.to_le_bytes());
@@ -352,7 +396,7 @@ impl World {
     }
 
     pub fn deadline_passed(&self) -> bool {
-        match self.time_limit_ns {
+        match self.limits.time_ns {
             Some(t) => self.mono_ns.saturating_sub(self.timer_start_ns) > t,
             None => false,
         }
@@ -385,7 +429,7 @@ impl Simulator for WorldHandle {
             let now = w.mono_ns;
             if w.in_deadline_set {
                 w.timer_start_ns = now;
-            } else if let Some(t) = w.time_limit_ns {
+            } else if let Some(t) = w.limits.time_ns {
                 // a checking read: xray compares `deadline > now`
                 if now.saturating_sub(w.timer_start_ns) >= t {
                     w.c.timeouts_due += 1;
@@ -466,7 +510,7 @@ impl World {
                             "balance: accounted {total_after} != model {m} after successful allocation of {size}"
                         ));
                     }
-                    if let Some(l) = self.size_limit {
+                    if let Some(l) = self.limits.size {
                         if *total_after > l {
                             self.problem(format!(
                                 "limit: successful allocation left accounted {total_after} above limit {l}"
@@ -476,6 +520,11 @@ impl World {
                 } else {
                     self.c.alloc_fail += 1;
                     self.fire("AllocationLimitReached".to_string(), Some(site));
+                    if let Some(l) = self.limits.size {
+                        if *total_after <= l {
+                            self.problem(format!("limit: allocation refused although total {total_after} <= limit {l}"));
+                        }
+                    }
                 }
                 let every = self.cfg.alloc_tick_every.max(1);
                 if self.cfg.alloc_tick_ns > 0 && (self.c.alloc_ok + self.c.alloc_fail) % every == 0 {
@@ -534,7 +583,12 @@ impl World {
                     let m = self.calls_since_reset;
                     self.problem(format!("calls: counter {count} != model {m}"));
                 }
-                if !*ok {
+                let due = self.limits.ud_call.map_or(false, |l| self.calls_since_reset >= l);
+                if due != !*ok {
+                    let m = self.calls_since_reset;
+                    self.problem(format!("calls: call #{m} since reset judged ok={ok} against limit {:?}", self.limits.ud_call));
+                }
+                if due {
                     self.c.call_refused += 1;
                     self.refused_since_reset += 1;
                     self.fire("MaximumUDCall".to_string(), None);
@@ -547,25 +601,45 @@ impl World {
                 if self.deadline_passed() {
                     self.late_enters += 1;
                     let over = self.mono_ns - self.timer_start_ns;
-                    let t = self.time_limit_ns.unwrap_or(0);
+                    let t = self.limits.time_ns.unwrap_or(0);
                     self.problem(format!(
                         "deadline: user call began {over} ns after timer start, limit {t} ns"
                     ));
                 }
                 self.push(Ev::Enter);
             }
+            Event::Frame { height, root } => {
+                if *root {
+                    self.c.root_frames += 1;
+                } else {
+                    self.c.frames += 1;
+                    if *height > self.max_height {
+                        self.max_height = *height;
+                    }
+                    if *height > self.op_max_height {
+                        self.op_max_height = *height;
+                    }
+                }
+                if self.limits.depth.map_or(false, |l| *height >= l) {
+                    self.c.depth_due += 1;
+                    self.fire("MaximumStackDepth".to_string(), None);
+                }
+                self.push(Ev::Frame(*height));
+            }
             Event::TailIteration { iteration } => {
                 self.c.tail_iters += 1;
+                if self.limits.recursion.map_or(false, |l| *iteration > l) {
+                    self.c.rec_due += 1;
+                    self.fire("MaximumRecursion".to_string(), None);
+                }
                 self.push(Ev::Tail(*iteration));
             }
             Event::DepthTrip { height } => {
                 self.c.depth_trips += 1;
-                self.fire("MaximumStackDepth".to_string(), None);
                 self.push(Ev::DepthTrip(*height));
             }
             Event::RecursionTrip { iteration } => {
                 self.c.rec_trips += 1;
-                self.fire("MaximumRecursion".to_string(), None);
                 self.push(Ev::RecTrip(*iteration));
             }
             Event::TimeoutCheck { .. } => {
@@ -575,7 +649,13 @@ impl World {
             Event::Permission { id, ok, site } => {
                 let site = self.site(site);
                 self.c.perm_checks += 1;
-                if !*ok {
+                let expected = PERM_NAMES.iter().position(|n| n == id).map(|i| self.perms[i].unwrap_or(perm_default(i)));
+                if let Some(e) = expected {
+                    if e != *ok {
+                        self.problem(format!("permission: {id} is {} in the configuration but the check saw {}", e, ok));
+                    }
+                }
+                if !expected.unwrap_or(*ok) {
                     self.c.perm_refused += 1;
                     self.fire(format!("PermissionError(\"{id}\")"), Some(site));
                 }
